@@ -9,6 +9,7 @@ pub mod script;
 pub mod c02_arity;
 pub mod c06_cancel;
 pub mod c07_done;
+pub mod c08_threads;
 pub mod c09_registry;
 pub mod c13_tasks;
 pub mod c17_kv;
@@ -80,10 +81,20 @@ pub const HARNESSES: &[(&str, fn())] = &[
     ("c07_join_handle_wakes", c07_done::c07_join_handle_wakes),
     ("c07_two_woken_tasks", c07_done::c07_two_woken_tasks),
     ("c07_spawn_abort_join", c07_done::c07_spawn_abort_join),
+    ("c08_evict_race_q1", c08_threads::c08_evict_race_q1),
+    ("c08_evict_race_q2", c08_threads::c08_evict_race_q2),
+    ("c08_evict_race_t1", c08_threads::c08_evict_race_t1),
+    ("c08_evict_race_t2", c08_threads::c08_evict_race_t2),
+    ("c08_waker_steps", c08_threads::c08_waker_steps),
+    ("c08_stream_host_wake", c08_threads::c08_stream_host_wake),
+    ("c08_capability_executor", c08_threads::c08_capability_executor),
 ];
 
 #[cfg(all(test, feature = "validate_models"))]
 mod model_validation;
+
+#[cfg(all(test, not(kani)))]
+mod c08_real;
 
 #[cfg(test)]
 mod selftest {
